@@ -23,8 +23,8 @@ type nativeFn struct {
 // initAllowed lists the packages whose package initialiser is executed from source.
 func initAllowed(path string) bool {
 	switch path {
-	case "io", "bytes", "strings", "strconv", "sort", "math", "math/bits", "encoding/binary",
-		"container/list", "unicode/utf8", "slices", "cmp", "encoding/hex", "context", "bufio", "hash", "crypto",
+	case "io", "bytes", "strings", "sort", "math/bits", "encoding/binary",
+		"container/list", "slices", "cmp", "encoding/hex", "context", "bufio", "hash", "crypto",
 		"encoding/base64", "internal/itoa", "internal/stringslite", "io/fs", "maps", "iter":
 		return true
 	}
